@@ -22,6 +22,12 @@ func ruleC02(prog *Program, rep *Report) {
 	rulePoolPut(prog, rep, "oj.Parser", "gen.Parser", "sen.Parser", "oj.Tokenizer", "oj.Validator", "sen.Tokenizer") // a parser put back before its last use mixes two callers' documents
 	rep.Rules = append(rep.Rules, "A-events: value/token events of the four JSON front-ends agree with the reference at every byte (kind of each value: null/true/false/string/number/container, key vs value) - see C03")
 	rep.Rules = append(rep.Rules, "N-mirror: once a number no longer fits the accumulators its bytes are collected as text (Number.BigBuf); for every reachable step of the JSON front-ends (and of the SEN front-ends on JSON numbers) in which the reference is inside a number before and after the byte, the arm either adds the dispatched byte to BigBuf (directly, or through a Number method whose first case does so when the buffer is in use) or is on a path that tested the buffer to be empty: no sign, digit, point or exponent marker of a big number is dropped")
+	exploreDigitFns = numberDigitFns(prog)
+	if len(exploreDigitFns) < 3 {
+		rep.Errorf("N-digit: found %d Number methods that use their byte as a digit (floor 3): anchors did not resolve", len(exploreDigitFns))
+	}
+	rep.Rules = append(rep.Rules, "N-digit: every reachable step that uses the dispatched byte as a decimal digit (b - '0' in the arm, or a Number method that computes it) is a step on one of the bytes '0'..'9' (a table cell that sends another byte to a digit arm changes the value without changing acceptance)",
+		"A-accept (as in C01): a valid JSON text is not rejected (rejects-live, eof-reject) - without a value there is nothing that could denote the text")
 	exploreMirror = numberMirrorFns(prog)
 	if len(exploreMirror) < 3 {
 		rep.Errorf("N-mirror: found %d Number methods that mirror their byte into BigBuf (floor 3): anchors did not resolve", len(exploreMirror))
@@ -29,9 +35,60 @@ func ruleC02(prog *Program, rep *Report) {
 	results := exploreFrontEnds(prog, jsonFrontEnds, []bool{false}, false)
 	applyParseResults(rep, results, union(kindsEvents, map[string]bool{"stale-scratch": true}), "A-events", 18)
 	reportKinds(rep, results, map[string]bool{"big-unmirrored": true}, "N-mirror")
+	reportKinds(rep, results, map[string]bool{"digit-misuse": true}, "N-digit")
+	reportKinds(rep, results, map[string]bool{"rejects-live": true, "eof-reject": true}, "A-accept")
 	sres := exploreFrontEnds(prog, senFrontEnds, []bool{false}, false, true)
 	exploreMirror = nil
 	applyParseResults(rep, sres, map[string]bool{"big-unmirrored": true}, "N-mirror", 12)
+	reportKinds(rep, sres, map[string]bool{"digit-misuse": true}, "N-digit")
+	exploreDigitFns = nil
+}
+
+// exploreDigitFns: see numberDigitFns.
+var exploreDigitFns map[*types.Func]bool
+
+// numberDigitFns: methods of gen.Number with one byte parameter whose body computes <param> - '0'.
+func numberDigitFns(prog *Program) map[*types.Func]bool {
+	out := map[*types.Func]bool{}
+	pk := prog.Pkg("gen")
+	if pk == nil {
+		return out
+	}
+	info := pk.TypesInfo
+	for _, f := range pk.Syntax {
+		for _, d := range f.Decls {
+			fd, ok := d.(*ast.FuncDecl)
+			if !ok || fd.Body == nil || fd.Recv == nil || len(fd.Recv.List) != 1 {
+				continue
+			}
+			if strings.ReplaceAll(types.ExprString(fd.Recv.List[0].Type), "*", "") != "Number" {
+				continue
+			}
+			if fd.Type.Params == nil || len(fd.Type.Params.List) != 1 || len(fd.Type.Params.List[0].Names) != 1 {
+				continue
+			}
+			param := info.Defs[fd.Type.Params.List[0].Names[0]]
+			found := false
+			ast.Inspect(fd.Body, func(n ast.Node) bool {
+				be, ok := n.(*ast.BinaryExpr)
+				if !ok || be.Op != token.SUB {
+					return true
+				}
+				id, _ := ast.Unparen(be.X).(*ast.Ident)
+				tv, okc := info.Types[be.Y]
+				if id != nil && info.Uses[id] == param && okc && tv.Value != nil && tv.Value.String() == "48" {
+					found = true
+				}
+				return true
+			})
+			if found {
+				if fn, ok := info.Defs[fd.Name].(*types.Func); ok {
+					out[fn] = true
+				}
+			}
+		}
+	}
+	return out
 }
 
 // exploreMirror, when set, makes exploreOne follow the number text buffer (N-mirror).
